@@ -113,6 +113,30 @@ theorem getters_after_roundtrip (ps : List TProp) (h : accepted ps = true) (k : 
   obtain ⟨b, hb, hd⟩ := txt_roundtrip ps h
   exact ⟨b, hb, dedupCI ps, hd, by unfold getVal; rw [lookup_ci], by unfold getValStr; rw [lookup_ci]⟩
 
+/-- **Same order, nothing lost, when no key repeats**: a list without two keys equal ignoring
+    case is its own first-key-wins image, so the browser decodes exactly the registered list -
+    every property, in the registered order, byte for byte. -/
+theorem roundtrip_exact_when_keys_distinct (ps : List TProp) (h : accepted ps = true)
+    (hd : ps.Pairwise (fun a b => lower a.key ≠ lower b.key)) :
+    dedupCI ps = ps ∧ ∃ b, create ps = .ok b ∧ decodeTxtUnique b = .ok ps := by
+  have hid : dedupCI ps = ps := dedupGo_id ps [] hd (by simp)
+  obtain ⟨b, hb, hdec⟩ := txt_roundtrip ps h
+  exact ⟨hid, b, hb, by rw [hdec, hid]⟩
+
+/-- **Only later duplicates are dropped**: every registered property has a kept property with
+    the same key ignoring case (the first one with that key, by `lookup_ci`), and removing
+    duplicates a second time (a browser that decodes what another decoded) changes nothing. -/
+theorem dedup_drops_only_duplicates (ps : List TProp) :
+    (∀ p ∈ ps, ∃ q ∈ dedupCI ps, lower q.key = lower p.key) ∧ dedupCI (dedupCI ps) = dedupCI ps := by
+  refine ⟨fun p hp => ?_, dedupGo_id _ [] (dedup_spec ps).2 (by simp)⟩
+  rcases dedupGo_covers ps [] p hp with h | h
+  · simp at h
+  · exact h
+
+example : sample.Pairwise (fun a b => lower a.key ≠ lower b.key) → False := by decide
+example : (dedupCI sample).Pairwise (fun a b => lower a.key ≠ lower b.key) ∧ accepted (dedupCI sample) = true := by
+  decide
+
 example : getValStr sample [0x62] = some [] ∧ getVal sample [0x62] = some none ∧ getValStr sample [0x7A] = none := by decide
 
 example : accepted sample = true := by decide
